@@ -1058,6 +1058,87 @@ pub fn large_conflict(rng: &mut Rng) -> (World, ProblemSpec) {
     (w, ProblemSpec { requirements, constraints: vec![], soft: vec![] })
 }
 
+/// Shared requirement family: several candidates of a hinted package X (one gets installed, the others are encoded
+/// eagerly while undecided) and optionally a further package Y require the *same* version set of a package T, whose
+/// candidates an installed solvable of K has already constrained away (K's preferred candidate allows none or few of
+/// them; its other candidate allows all). Which parent asks for the shared requirement first depends on the order in
+/// which the dependency answers arrive.
+pub fn shared_requirement(rng: &mut Rng) -> (World, ProblemSpec) {
+    let mut w = World::default();
+    let mut next_s = 0u32;
+    let mut next_vs = 0u32;
+    let mut mk = |w: &mut World, rng: &mut Rng, name: u32, n: usize, hint: Hint| -> Vec<u32> {
+        let c: Vec<u32> = (next_s..next_s + n as u32).collect();
+        next_s += n as u32;
+        for x in &c {
+            w.solvables.insert(*x, Solvable { name, deps: Deps::Known { requirements: vec![], constrains: vec![] } });
+        }
+        let mut rank = c.clone();
+        if rng.chance(1, 3) {
+            rng.shuffle(&mut rank);
+        }
+        w.packages.insert(name, Package { candidates: c.clone(), rank, favored: None, locked: None, excluded: vec![], hint, missing: false });
+        c
+    };
+    let mut vs = |w: &mut World, name: u32, mut m: Vec<u32>| -> u32 {
+        m.sort();
+        let id = next_vs;
+        next_vs += 1;
+        w.version_sets.insert(id, VersionSet { name, matches: m });
+        id
+    };
+    let (t_name, k_name, x_name, y_name) = (0u32, 1u32, 2u32, 3u32);
+    let nt = rng.range(1, 3);
+    let t = mk(&mut w, rng, t_name, nt, Hint::None);
+    let hk = if rng.chance(1, 2) { Hint::All } else { Hint::None };
+    let k = mk(&mut w, rng, k_name, 2, hk);
+    let nx = rng.range(2, 3);
+    let hx = if rng.chance(3, 4) { Hint::All } else { Hint::Some(vec![]) };
+    let x = mk(&mut w, rng, x_name, nx, hx);
+    let hy = if rng.chance(1, 2) { Hint::All } else { Hint::None };
+    let y = mk(&mut w, rng, y_name, 1, hy);
+    // hints on X: all, or all but the preferred one
+    if let Hint::Some(_) = w.packages[&x_name].hint {
+        let pref = w.packages[&x_name].rank[0];
+        let v: Vec<u32> = x.iter().copied().filter(|c| *c != pref).collect();
+        w.packages.get_mut(&x_name).unwrap().hint = Hint::Some(v);
+    }
+    let shared = vs(&mut w, t_name, t.clone());
+    // K's preferred candidate allows none (or only some) of T
+    let allowed: Vec<u32> = if rng.chance(2, 3) { vec![] } else { t.iter().copied().filter(|_| rng.chance(1, 3)).collect() };
+    let allow = vs(&mut w, t_name, allowed);
+    let k_pref = w.packages[&k_name].rank[0];
+    w.solvables.get_mut(&k_pref).unwrap().deps = Deps::Known { requirements: vec![], constrains: vec![allow] };
+    for c in &x {
+        w.solvables.get_mut(c).unwrap().deps = Deps::Known { requirements: vec![Req::Single(shared)], constrains: vec![] };
+    }
+    if rng.chance(1, 2) {
+        w.solvables.get_mut(&y[0]).unwrap().deps = Deps::Known { requirements: vec![Req::Single(shared)], constrains: vec![] };
+    }
+    let k_any = vs(&mut w, k_name, k.clone());
+    let x_any = vs(&mut w, x_name, x.clone());
+    let y_any = vs(&mut w, y_name, y.clone());
+    let mut requirements = vec![Req::Single(k_any)];
+    if rng.chance(1, 2) {
+        requirements.push(Req::Single(x_any));
+    } else {
+        // X (hinted) is not required by the root but by an installed solvable of a further package W, so that its
+        // candidates are discovered - and encoded eagerly - in the same pass in which Y's dependencies are fetched
+        let wn = 4u32;
+        let wc = mk(&mut w, rng, wn, 1, Hint::None);
+        w.solvables.get_mut(&wc[0]).unwrap().deps = Deps::Known { requirements: vec![Req::Single(x_any)], constrains: vec![] };
+        let w_any = vs(&mut w, wn, wc.clone());
+        requirements.push(Req::Single(w_any));
+        w.solvables.get_mut(&y[0]).unwrap().deps = Deps::Known { requirements: vec![Req::Single(shared)], constrains: vec![] };
+        requirements.push(Req::Single(y_any));
+    }
+    if rng.chance(1, 2) && !requirements.contains(&Req::Single(y_any)) {
+        requirements.push(Req::Single(y_any));
+    }
+    rng.shuffle(&mut requirements);
+    (w, ProblemSpec { requirements, constraints: vec![], soft: vec![] })
+}
+
 /// Wide fan-out family: a solvable (the root, or a single solvable the root requires) with `width` requirements on
 /// distinct packages (futures combinators and request budgets change behaviour beyond a few dozen members), plus
 /// optionally one package with many hinted candidates and a union with many members.
